@@ -1,18 +1,28 @@
 #!/usr/bin/env python3
-"""Import a confirmed seeded change from /tmp/seed_out/<prop>/<variant> into /verif/seeded/<prop><variant>/."""
+"""Import a seeded change written by a sub-agent into /verif/seeded/<id>/.
+usage: import_seed.py [--root /tmp/seed_out2 --shift 2] C01/a C01/b ...
+--shift n renames variant letters (a->c, b->d, ... for n=2) so that rounds do not collide."""
 import json, os, shutil, sys
-for prop, var in [a.split("/") for a in sys.argv[1:]]:
-    src = "/tmp/seed_out/%s/%s" % (prop, var)
-    dst = "/verif/seeded/%s%s" % (prop, var)
+args = sys.argv[1:]
+root, shift = "/tmp/seed_out", 0
+while args and args[0].startswith("--"):
+    if args[0] == "--root":
+        root = args[1]
+    elif args[0] == "--shift":
+        shift = int(args[1])
+    args = args[2:]
+for prop, var in [a.split("/") for a in args]:
+    src = "%s/%s/%s" % (root, prop, var)
+    newvar = chr(ord(var) + shift)
+    dst = "/verif/seeded/%s%s" % (prop, newvar)
     os.makedirs(dst, exist_ok=True)
     shutil.copy(src + "/patch.diff", dst + "/patch.diff")
     shutil.copy(src + "/demo.py", dst + "/demo.py")
-    notes = open(src + "/notes.md").read()
-    meta = {"id": prop + var, "property": prop,
+    notes = open(src + "/notes.md").read() if os.path.exists(src + "/notes.md") else ""
+    meta = {"id": prop + newvar, "property": prop, "round": 1 if shift == 0 else 2,
             "written_by": "independent sub-agent given only the property text and a scratch worktree",
             "needs_to_manifest": notes,
-            "confirmed_by": "selftest/verify_seed.py in a scratch worktree of /repo: demo exits 0 on the clean tree, non-zero with the patch; "
-                            "pytest (182 tests) passes with the patch",
+            "confirmed_by": None,
             "detected_by": None}
     json.dump(meta, open(dst + "/meta.json", "w"), indent=1)
     print("imported", dst)
